@@ -48,8 +48,68 @@ Definition admissible_b (o : outcome) (evs : list event) : bool :=
   | _, _ => false
   end.
 
+Definition kind_eqb (a b : kind) : bool :=
+  match a, b with KNil, KNil | KSess, KSess | KMap, KMap => true | _, _ => false end.
+
+Definition seen_eqb (a b : seen) : bool :=
+  match a, b with
+  | VKind d t k, VKind d' t' k' => (d =? d') && (t =? t') && kind_eqb k k'
+  | VGet d k v, VGet d' k' v' => (d =? d') && (k =? k') && option_eqb Z.eqb v v'
+  | VCall d t n, VCall d' t' n' => (d =? d') && (t =? t') && (n =? n')
+  | _, _ => false
+  end.
+
+Fixpoint all2b {A B} (f : A -> B -> bool) (l : list A) (l' : list B) : bool :=
+  match l, l' with
+  | [], [] => true
+  | a :: r, b :: r' => f a b && all2b f r r'
+  | _, _ => false
+  end.
+
+(* ---- "the parameter a rule sees is the caller's own" ----
+   on what the rule consulted for a call of (ty, p) itself (depth 0) saw: the kind it was
+   handed is the kind of the caller's parameter, every key it read has the value the CALLER'S
+   parameter binds it to (None = not bound) - never a value of another call's parameter *)
+Definition own_seen (ty : Z) (p : param) (e : seen) : Prop :=
+  sdepth e = 0 ->
+  match e with
+  | VKind _ t k => t = ty /\ exists rp, to_rparam p = Some rp /\ k = kind_of rp
+  | VGet _ k v =>
+      exists d, (to_rparam p = Some (RPSess d) \/ to_rparam p = Some (RPMap d)) /\ v = dget k d
+  | VCall _ _ _ => True
+  end.
+
+Definition sees_own (ty : Z) (p : param) (tr : list seen) : Prop := Forall (own_seen ty p) tr.
+
+Definition own_seen_b (ty : Z) (p : param) (e : seen) : bool :=
+  if sdepth e =? 0 then
+    match e with
+    | VKind _ t k =>
+        (t =? ty) && match to_rparam p with Some rp => kind_eqb k (kind_of rp) | None => false end
+    | VGet _ k v =>
+        match to_rparam p with
+        | Some (RPSess d) | Some (RPMap d) => option_eqb Z.eqb v (dget k d)
+        | _ => false
+        end
+    | VCall _ _ _ => true
+    end
+  else true.
+
+(* a call that never reaches the route layer consults no rule *)
+Definition call_sees_own (c : pcall) (tr : list seen) : Prop :=
+  match call_key c with
+  | Some (ty, p) => sees_own ty p tr
+  | None => tr = []
+  end.
+
+Definition call_sees_own_b (c : pcall) (tr : list seen) : bool :=
+  match call_key c with
+  | Some (ty, p) => forallb (own_seen_b ty p) tr
+  | None => match tr with [] => true | _ => false end
+  end.
+
 (* an implementation observation is one of the behaviours a model output allows *)
-Definition admits (m : mout) (b : obs) : bool :=
+Definition admits1 (m : mout) (b : obs) : bool :=
   match m, b with
   | MUnit, BUnit => true
   | MName n, BName n' => n =? n'
@@ -58,6 +118,17 @@ Definition admits (m : mout) (b : obs) : bool :=
   | MOut o, BEvents evs => admissible_b o evs
   | MNames l, BNames l' => zlist_eqb l l'
   | _, _ => false
+  end.
+
+Definition admits_call (x : mout * option (list seen)) (y : obs * list seen) : bool :=
+  admits1 (fst x) (fst y)
+  && match snd x with Some t => list_eqb seen_eqb t (snd y) | None => false end.
+
+Definition admits (m : mout) (b : obs) : bool :=
+  match m, b with
+  | MCalls l, BCalls l' => all2b admits_call l l'
+  | MCalls _, _ | _, BCalls _ => false
+  | _, _ => admits1 m b
   end.
 
 Fixpoint admits_all (ms : list mout) (bs : list obs) : bool :=
@@ -193,6 +264,7 @@ Definition default_ok_b (v : view) (t : Z) (evs : list event) : bool :=
 Section Hist.
   Variable F : Type.
   Variable interp : F -> rfn.
+  Variable pinterp : F -> rule.
 
   Definition vstep (v : view) (o : op F) : view := match o with OUpdate v' => v' | _ => v end.
   Definition last_view (h : list (op F)) : view := fold_left vstep h [].
@@ -212,6 +284,16 @@ Section Hist.
     | DFn f => Some (interp f)
     end.
 
+  (* the same rules as programs *)
+  Definition hrules (h : list (op F)) : Z -> option rule :=
+    fun ty => option_map pinterp (reg_at h ty).
+  Definition hpdflt (h : list (op F)) : option rule :=
+    match dflt_at h with
+    | DApp => Some (app_rule (last_view h))
+    | DNone => None
+    | DFn f => Some (pinterp f)
+    end.
+
   Definition default_applies (h : list (op F)) (r : list Z) (p : param) : option Z :=
     match r, rule_param p, dflt_at h with
     | [t; _; _], Some _, DApp =>
@@ -222,7 +304,7 @@ Section Hist.
 
   (* the monitor: the property evaluated on one implementation observation b of op o made
      after history h *)
-  Definition op_ok_b (h : list (op F)) (o : op F) (b : obs) : bool :=
+  Definition op_ok1 (h : list (op F)) (o : op F) (b : obs) : bool :=
     let v := last_view h in
     match o, b with
     | (OReg _ _ | ODefault _ | OUpdate _), BUnit => true
@@ -249,6 +331,18 @@ Section Hist.
     | _, _ => false
     end.
 
+  (* calls in flight together: each is held to exactly what the property demands of it when
+     it is made alone, and the rule consulted for it saw the caller's own parameter *)
+  Definition call_ok_b (h : list (op F)) (c : pcall) (y : obs * list seen) : bool :=
+    op_ok1 h (op_of_call c) (fst y) && call_sees_own_b c (snd y).
+
+  Definition op_ok_b (h : list (op F)) (o : op F) (b : obs) : bool :=
+    match o, b with
+    | OCalls cs _, BCalls l => all2b (call_ok_b h) cs l
+    | OCalls _ _, _ | _, BCalls _ => false
+    | _, _ => op_ok1 h o b
+    end.
+
   (* operations that only ask for a routing decision *)
   Definition is_decision (o : op F) : bool :=
     match o with OReg _ _ | ODefault _ | OUpdate _ => false | _ => true end.
@@ -266,7 +360,11 @@ Arguments reg_at {F} h ty.
 Arguments dflt_at {F} h.
 Arguments hreg {F} interp h ty.
 Arguments hdflt {F} interp h.
+Arguments hrules {F} pinterp h ty.
+Arguments hpdflt {F} pinterp h.
 Arguments default_applies {F} h r p.
+Arguments op_ok1 {F} interp h o b.
+Arguments call_ok_b {F} interp h c y.
 Arguments op_ok_b {F} interp h o b.
 Arguments is_decision {F} o.
 Arguments monitor_from {F} interp hist ops bs.
